@@ -42,6 +42,20 @@ def det_pools():
     pools.append({"name": "heavy", "heap": b.h, "roots": [hv, ly, lr], "vars": ["x", "y", "z"],
                   "points": [P(x=4, y=1, z=3), P(x=1, y=2, z=(1, 2)), P(x=-1, y=0, z=1), P(x=-1), P(x=2, z=1)], "nums": [gen.q(2)],
                   "switch": [{"r": hv, "v": "x"}, {"r": ly, "v": "y"}]})
+    # n-ary nodes with a REPEATED child next to several distinct children that share a variable (seed C18_r3mut1: a walk over
+    # set(children) is seed-ordered); 0.1 + 0.2 + 0.3 is the classic order-sensitive float sum, so the numeric reverse sweep shows it
+    # bit for bit and the symbolic one in the structure of the accumulated partial
+    b = gen.HeapB()
+    x = b.var("x"); y = b.var("y")
+    t1 = b.nary("Multiply", b.const(1, 10), x); t2 = b.nary("Multiply", b.const(1, 5), x); t3 = b.nary("Multiply", b.const(3, 10), x)
+    s = b.nary("Add", y, t1, t2, t3, y)
+    u1 = b.nary("Add", b.const(1, 10), y); u2 = b.nary("Add", b.const(1, 5), y); u3 = b.nary("Add", b.const(3, 10), y)
+    m = b.nary("Multiply", x, u1, u2, u3, x)
+    inner = b.nary("Add", x, b.nary("Multiply", b.const(1, 10), y), b.nary("Multiply", b.const(1, 5), y), b.nary("Multiply", b.const(3, 10), y), x)
+    e = b.bun("Exponential", inner, gen.q(2))
+    pools.append({"name": "dupterms", "heap": b.h, "roots": [s, m, e], "vars": ["x", "y"],
+                  "points": [P(x=1, y=1), P(x=(1, 3), y=(1, 7)), P(x=2, y=-1)], "nums": [gen.q(1)],
+                  "switch": [{"r": s, "v": "x"}, {"r": m, "v": "y"}]})
     return pools
 
 
@@ -77,7 +91,7 @@ def run(pid, tier, seed):
             raise Machinery("Determinism.tla: OrderInsensitive violated in the faithful configuration")
         rep.add_tlc(res)
         counts["model_orders"] = res.get("distinct", 0)
-        for mut in ("KeysFromSorted", "FoldOnlyOnce"):
+        for mut in ("KeysFromSorted", "FoldOnlyOnce", "ChildrenAsSet"):
             rm = tlcrun.run("Determinism", f"Determinism_mut_{mut}.cfg", timeout=300, workers=4, expect_violation=True)
             if not rm["violated"]:
                 raise Machinery(f"vacuity: the mutant configuration {mut} of Determinism.tla does not violate the invariant")
@@ -142,6 +156,6 @@ def run(pid, tier, seed):
     rep.assumptions = ["CPython's PYTHONHASHSEED randomises str hashing (set/dict iteration order of variable names)", "ApiTrace.tla judges one of the identical traces"]
     return rep.finish({"evaluations": counts["events"] * counts["processes"] // max(1, len(det_pools())), "distinct_nontrivial": counts["behaviours"],
                        "traces_validated_against_impl": counts["behaviours"], **counts,
-                       "rule": "behaviours over two pools with 4-5 variable names (n-ary nodes with 3-4 distinct children, shared closed sub-expression, all routes, as_expression, "
+                       "rule": "behaviours over four pools (4-5 variable names; a many-step quotient with an incomplete point; n-ary nodes with a repeated child next to order-sensitive float terms) (n-ary nodes with 3-4 distinct children, shared closed sub-expression, all routes, as_expression, "
                                "early Differential for every variable) executed in separate processes for every hash seed, with permuted coordinate order and variable creation order; "
                                "compared byte for byte (float.hex, structural expressions incl. memo flags); non-trivial = every behaviour touches >= 2 variables"}, exhaustive=False)
